@@ -34,27 +34,39 @@ Proof. intros H. unfold should_compact. apply Z.ltb_ge. change (LEAF_CAP / 4) wi
 Lemma leaf_delete_ok lo hi (l : leaf) i (c : entry) :
   leaf_ok lo hi l -> nth_error (lcells l) i = Some c ->
   leaf_ok lo hi (leaf_delete V vlen l i) /\ lcells (leaf_delete V vlen l i) = remove_at i (lcells l)
-  /\ lfe (leaf_delete V vlen l i) = lfe l.
+  /\ lfree V l + SLOT <= lfree V (leaf_delete V vlen l i).
 Proof.
-  intros (Hs & Hin & Hsz1 & Hsz2 & Hfr) Hn. unfold leaf_delete. rewrite Hn.
+  intros (Hs & Hin & Hsz1 & Hsz2 & Hfr & Hemp) Hn. unfold leaf_delete. rewrite Hn.
   assert (Hfr' : 0 <= sat_u8 (lfrag l + csize c mod 256) <= 255).
   { apply sat_u8_range. pose proof (Z.mod_pos_bound (csize c) 256 ltac:(lia)). lia. }
-  rewrite compaction_unreachable_l by (cbn [lfrag]; exact Hfr').
-  cbn [lcells lfe lfrag]. split; [|split; reflexivity].
   pose proof (remove_at_perm _ _ _ Hn) as P.
-  split; [eapply ssorted_remove; eassumption|]. split.
-  - eapply Permutation_Forall in Hin; [|exact P]. inversion Hin; assumption.
-  - unfold leaf_sizes, BTree.lcount in *. cbn [lcells lfe lfrag].
-    pose proof (Permutation_length P) as PL. cbn [length] in PL.
-    pose proof (sumz_perm _ _ (Permutation_map csize P)) as PS. cbn [map] in PS. rewrite sumz_cons in PS.
-    pose proof (csize_nonneg V vlen vlen_nonneg c). unfold SLOT, LEAF_START, PAGE in *. lia.
+  pose proof (Permutation_length P) as PL. cbn [length] in PL.
+  pose proof (sumz_perm _ _ (Permutation_map csize P)) as PS. cbn [map] in PS. rewrite sumz_cons in PS.
+  pose proof (csize_nonneg V vlen vlen_nonneg c) as Hc0.
+  pose proof (sum_csize_nonneg V vlen vlen_nonneg (lcells l)) as Hs0.
+  pose proof (sum_csize_nonneg V vlen vlen_nonneg (remove_at i (lcells l))) as Hs1.
+  assert (Hsrt : ssorted V (remove_at i (lcells l))) by (eapply ssorted_remove; eassumption).
+  assert (Hcin : cells_in V lo hi (remove_at i (lcells l))).
+  { eapply Permutation_Forall in Hin; [|exact P]. inversion Hin; assumption. }
+  destruct (remove_at i (lcells l)) as [|x rest] eqn:Er.
+  - rewrite compaction_unreachable_l by (cbn [lfrag]; lia). cbn [lcells lfe lfrag].
+    split; [|split; [reflexivity|]].
+    + split; [exact Hsrt|]. split; [exact Hcin|]. unfold leaf_sizes, BTree.lcount. cbn [lcells lfe lfrag length map].
+      unfold sumz, SLOT, LEAF_START, PAGE. cbn. repeat split; lia.
+    + unfold BTree.lfree, lfstart, BTree.lcount in *. cbn [lcells lfe length] in *. unfold SLOT, LEAF_START, PAGE, BTree.entry in *. lia.
+  - rewrite compaction_unreachable_l by (cbn [lfrag]; exact Hfr'). cbn [lcells lfe lfrag].
+    split; [|split; [reflexivity|]].
+    + split; [exact Hsrt|]. split; [exact Hcin|]. unfold leaf_sizes, BTree.lcount in *. cbn [lcells lfe lfrag].
+      split; [unfold SLOT, LEAF_START, PAGE, BTree.entry in *; lia|]. split; [unfold SLOT, LEAF_START, PAGE, BTree.entry in *; lia|].
+      split; [exact Hfr' | discriminate].
+    + unfold BTree.lfree, lfstart, BTree.lcount in *. cbn [lcells lfe] in *. unfold SLOT, LEAF_START, PAGE, BTree.entry in *. lia.
 Qed.
 
 Definition dres_ok (h : nat) (lo hi : option key) (t : tree) (k : key) (r : dres V) : Prop :=
   match r with
   | DOk t' => bounded h lo hi t' /\ exists v, Permutation (abs h t) ((k, v) :: abs h t')
   | DNotFound => ~ In k (keys (abs h t))
-  | DErr _ => True
+  | DErr _ => False
   end.
 
 Lemma del_ok : forall h (t : tree) k lo hi, bounded h lo hi t -> lo_ok lo k -> hi_ok hi k ->
@@ -81,7 +93,7 @@ Proof.
         apply Permutation_sym. apply HX2.
     + intros Hin. apply IH. unfold BTreeOrder.keys in *. apply in_map_iff in Hin as (x & Hx & Hxin). apply in_map_iff. exists x.
       split; [exact Hx|]. rewrite abs_node in Hxin. eapply kabs_key_in_child; eassumption.
-    + exact I.
+    + exact IH.
 Qed.
 
 (* ---------------------------------------------------------------- update *)
@@ -89,8 +101,8 @@ Definition ures_ok (h : nat) (lo hi : option key) (t : tree) (k : key) (v : V) (
   match r with
   | UTOk t' true => bounded h lo hi t' /\ exists old rest, Permutation (abs h t) ((k, old) :: rest) /\ Permutation (abs h t') ((k, v) :: rest)
   | UTOk t' false => bounded h lo hi t' /\ Permutation (abs h t') (abs h t) /\ (forall old, In (k, old) (abs h t) -> vlen old < vlen v)
-  | UTLost _ => True
-  | UTErr _ => True
+  | UTLost _ => False
+  | UTErr _ => False
   end.
 
 Lemma csize_le k (a b : V) : vlen a <= vlen b -> csize (k, a) <= csize (k, b).
@@ -100,7 +112,7 @@ Lemma leaf_replace_ok lo hi (l : leaf) i k (ov v : V) fr :
   leaf_ok lo hi l -> nth_error (lcells l) i = Some (k, ov) -> vlen v <= vlen ov -> 0 <= fr <= 255 ->
   leaf_ok lo hi (mkLeaf (lid l) (replace_at i (k, v) (lcells l)) (lfe l) fr).
 Proof.
-  intros (Hs & Hin & Hsz1 & Hsz2 & Hfr) Hn Hle Hfr2.
+  intros (Hs & Hin & Hsz1 & Hsz2 & Hfr & Hemp) Hn Hle Hfr2.
   pose proof (remove_at_perm _ _ _ Hn) as P. pose proof (replace_at_perm (lcells l) i (k, ov) (k, v) Hn) as P2.
   split; [|split].
   - cbn [lcells]. exact (ssorted_replace V (lcells l) i (k, ov) v Hn Hs).
@@ -109,18 +121,31 @@ Proof.
   - unfold leaf_sizes, BTree.lcount in *. cbn [lcells lfe lfrag].
     pose proof (Permutation_length P) as PL. pose proof (Permutation_length P2) as PL2. cbn [length] in PL, PL2.
     pose proof (sumz_perm _ _ (Permutation_map csize P)) as PS. pose proof (sumz_perm _ _ (Permutation_map csize P2)) as PS2.
-    cbn [map] in PS, PS2. rewrite sumz_cons in PS, PS2. pose proof (csize_le k v ov Hle). unfold SLOT, LEAF_START, PAGE, BTree.entry in *. lia.
+    cbn [map] in PS, PS2. rewrite sumz_cons in PS, PS2. pose proof (csize_le k v ov Hle).
+    split; [unfold SLOT, LEAF_START, PAGE, BTree.entry in *; lia|]. split; [unfold SLOT, LEAF_START, PAGE, BTree.entry in *; lia|].
+    split; [exact Hfr2|]. intros Hnil. exfalso. cbn [lcells] in Hnil. rewrite Hnil in PL2. discriminate.
+Qed.
+
+Lemma lguard_ok_d lo hi (l : leaf) : leaf_ok lo hi l -> lguard V l = true.
+Proof. intros (_ & _ & H1 & _). unfold lguard, lfstart. apply Z.leb_le. exact H1. Qed.
+
+Lemma removed_key_absent (cs : list entry) i k ov : ssorted V cs -> nth_error cs i = Some (k, ov) -> ~ In k (keys (remove_at i cs)).
+Proof.
+  intros Hs Hn Hin. pose proof (ssorted_NoDup_keys V cs Hs) as ND.
+  assert (P : Permutation (keys cs) (k :: keys (remove_at i cs))).
+  { unfold BTreeOrder.keys. change (k :: map fst (remove_at i cs)) with (map fst ((k, ov) :: remove_at i cs)). apply Permutation_map. apply remove_at_perm. exact Hn. }
+  apply (Permutation_NoDup P) in ND. inversion ND; contradiction.
 Qed.
 
 Lemma leaf_update_ok lo hi (l : leaf) k v : leaf_ok lo hi l -> lo_ok lo k -> hi_ok hi k ->
   match leaf_update V vlen l k v with
   | UTrue l' => leaf_ok lo hi l' /\ exists old rest, Permutation (lcells l) ((k, old) :: rest) /\ Permutation (lcells l') ((k, v) :: rest)
   | UFalse => forall old, In (k, old) (lcells l) -> vlen old < vlen v
-  | ULost _ => True
-  | UPanic => True
+  | ULost _ => False
+  | UPanic => False
   end.
 Proof.
-  intros Hok Hlo Hhi. pose proof Hok as (Hs & Hin & Hsz1 & Hsz2 & Hfr). unfold leaf_update.
+  intros Hok Hlo Hhi. pose proof Hok as (Hs & Hin & Hsz1 & Hsz2 & Hfr & Hemp). unfold leaf_update.
   destruct (lfind V k (lcells l)) as [f i] eqn:Ef. destruct f.
   2:{ intros old Ho. exfalso. eapply lfind_notin; [exact Hs | exact Ef |]. change k with (fst (k, old)). apply in_map. exact Ho. }
   destruct (lfind_found V _ _ _ Ef) as (ov & Hn). rewrite Hn. cbn [fst snd].
@@ -132,15 +157,18 @@ Proof.
     - apply (leaf_replace_ok lo hi l i k ov v); [exact Hok | exact Hn | lia |]. apply sat_u8_range.
       match goal with |- 0 <= _ + ?x mod 256 => pose proof (Z.mod_pos_bound x 256 ltac:(lia)) end. lia.
     - exists ov, (remove_at i (lcells l)). cbn [lcells]. split; assumption. }
-  destruct (Z.leb_spec (Z.max 0 (vlen v + varint_len (vlen v) - (vlen ov + varint_len (vlen ov)))) (Z.max 0 (lfree V l))) as [Hinc | Hinc].
+  destruct (Z.leb_spec (csize (k, v)) (Z.max 0 (lfree V l))) as [Hinc | Hinc].
   2:{ intros old Ho. assert ((k, old) = (k, ov)) as E.
       { eapply ssorted_in_key_unique; [exact Hs | exact Ho | eapply nth_error_In; exact Hn | reflexivity]. }
       injection E as ->. lia. }
-  destruct (leaf_delete_ok lo hi l i (k, ov) Hok Hn) as (Hok1 & Hc1 & Hfe1).
+  destruct (leaf_delete_ok lo hi l i (k, ov) Hok Hn) as (Hok1 & Hc1 & Hfree1).
   set (l1 := leaf_delete V vlen l i) in *.
-  destruct (negb (lguard V l1)); [exact I|].
-  destruct (Z.leb_spec (csize (k, v) + SLOT) (lfree V l1)) as [Hroom | Hfull]; [|exact I].
-  destruct (lfind V k (lcells l1)) as [f2 pos] eqn:Ef2. destruct f2; [exact I|].
+  rewrite (lguard_ok_d lo hi l1 Hok1). cbn [negb].
+  assert (Hl0 : 0 <= lfree V l) by (unfold BTree.lfree, lfstart; lia).
+  destruct (Z.leb_spec (csize (k, v) + SLOT) (lfree V l1)) as [Hroom | Hfull]; [|lia].
+  destruct (lfind V k (lcells l1)) as [f2 pos] eqn:Ef2. destruct f2.
+  { destruct (lfind_found V _ _ _ Ef2) as (v2 & Hv2). apply nth_error_In in Hv2. rewrite Hc1 in Hv2.
+    apply (removed_key_absent (lcells l) i k ov Hs Hn). change k with (fst (k, v2)). apply in_map. exact Hv2. }
   destruct Hok1 as (Hs1 & Hrest1).
   destruct (leaf_put_ok V vlen vlen_nonneg lo hi l1 pos (k, v)) as [Hok2 Hp2].
   - split; assumption.
@@ -157,7 +185,7 @@ Lemma upd_ok : forall h (t : tree) k v lo hi, bounded h lo hi t -> lo_ok lo k ->
 Proof.
   induction h as [|h' IH]; intros t k v lo hi HB Hlo Hhi; destruct t as [l | id kids r]; cbn in HB; try contradiction.
   - cbn [upd]. pose proof (leaf_update_ok lo hi l k v HB Hlo Hhi) as Hu.
-    destruct (leaf_update V vlen l k v) as [l' | | l' |]; cbn [ures_ok BTreeInv.bounded]; try exact I.
+    destruct (leaf_update V vlen l k v) as [l' | | l' |]; cbn [ures_ok BTreeInv.bounded]; try contradiction.
     + destruct Hu as [H1 (old & rest & H2 & H3)]. split; [exact H1|]. exists old, rest. rewrite !abs_leaf. split; assumption.
     + split; [exact HB|]. split; [apply Permutation_refl|]. rewrite abs_leaf. exact Hu.
   - destruct HB as [Hfree HB]. cbn [upd]. set (i := cidx V k kids).
@@ -180,8 +208,8 @@ Proof.
         -- eapply Permutation_trans; [apply HX2|]. eapply Permutation_trans; [apply Permutation_app_tail; exact Hp|]. apply Permutation_sym. exact HX1.
         -- intros old Ho. apply Hgrow. change (abs h' (child_at V kids r i)) with (abs h' (child_at V kids r (cidx V k kids))).
            eapply (kabs_key_in_child V vlen h' kids lo hi r k HB Hlo Hhi (k, old)); [exact Ho | reflexivity].
-    + destruct (set_child V kids r i c) as [k2 r2]. exact I.
-    + exact I.
+    + contradiction.
+    + exact IH.
 Qed.
 
 End D.
